@@ -39,6 +39,8 @@ where
         | "declared" => some (EtaD.Callee.declared false false)
         | "declared-generic" => some (.declared true false)
         | "declared-generic-inst" => some (.declared true true)
+        | "declared-generic-partial" => some (.declared true false)   -- f[A] of f[A, B]: not all arguments written
+        | "pkgfunc-generic-partial" => some (.pkgFunc true false)
         | "pkgfunc" => some (.pkgFunc false false)
         | "pkgfunc-generic" => some (.pkgFunc true false)
         | "pkgfunc-generic-inst" => some (.pkgFunc true true)
